@@ -2,7 +2,7 @@
 # usage: seedverify.sh <ID> [demo args...]   - independent confirmation of a sub-agent's seeded change in its scratch worktree:
 #   (1) the repository's own tests pass with the change, (2) the demonstration fails with it, (3) passes without it.
 id=$1; shift
-wt=/tmp/seed-$id; out=/tmp/seedout/$id
+wt=${SEED_WT_PREFIX:-/tmp/seed-}$id; out=${SEED_OUT:-/tmp/seedout}/$id
 cd $wt || exit 2
 git diff --quiet && { echo "$id: worktree has no change"; exit 2; }
 meson compile -C _build >/dev/null 2>&1 || { echo "$id: build with change FAILED"; exit 2; }
